@@ -176,6 +176,7 @@ def run(ctx: common.Ctx):
     ctx.sample({"pps": cases[-1][0], "chunks": cases[-1][1], "output": impl_run(*cases[-1])})
     run_files(ctx, drv)
     run_copy(ctx, drv)
+    run_assemble(ctx, drv)
     for p, c in cases[ncorpus + 5000: ncorpus + 5003]:
         ctx.sample({"pps": p, "chunks": c, "output": impl_run(p, c)})
 
@@ -274,7 +275,7 @@ def run_copy(ctx, drv):
     texts = []
     maxlen = 3 if ctx.quick else 4
     for L in range(0, maxlen + 1):
-        for tup in itertools.product(ALPHABET + ["\x0c", "\x85"], repeat=L):
+        for tup in itertools.product(ALPHABET + ["\x0c", "\x85", "\ufeff"], repeat=L):
             texts.append("".join(tup))
     for _ in range(200 if ctx.quick else 3000):
         texts.append("".join(rng.choices(ALPHABET + ["b", "\x0b", "\x0c", "\x1c", "\x85", "\u2029"], k=rng.randint(4, 30))))
@@ -298,6 +299,65 @@ def run_copy(ctx, drv):
                      "a raw support file copied through line processors is not the processors applied line by line to its text",
                      {"pps": pps, "text": t, "output": got, "expected": ref})
     ctx.sample({"stream": "copy", "pps": cases[-1][0], "text": cases[-1][1], "output": impl_copy(cases[-1][0], cases[-1][1], scratch, True)})
+
+
+def run_assemble(ctx, drv):
+    """How a generator assembles its processor list from the caller's list and the language configuration."""
+    import nunavut._postprocessors as npp
+    from nunavut.jinja import CodeGenerator
+
+    class Other(npp.FilePostProcessor):
+        def __init__(self, k):
+            self.k = k
+
+        def __call__(self, generated):
+            return generated
+
+    class FakeLanguage:
+        def __init__(self, limit, trim):
+            self.limit, self.trim = limit, trim
+
+        def get_config_value(self, key):
+            if key == "limit_empty_lines" and self.limit is not None:
+                return str(self.limit)
+            raise KeyError(key)
+
+        def get_config_value_as_bool(self, key, default_value=False):
+            return self.trim if key == "trim_trailing_whitespace" else default_value
+
+    def make(tok):
+        return npp.TrimTrailingWhitespace() if tok == "T" else npp.LimitEmptyLines(int(tok[1:])) if tok[0] == "L" else Other(int(tok[1:]))
+
+    def show(objs):
+        if objs is None:
+            return "N"
+        out = []
+        for o in objs:
+            out.append("T" if isinstance(o, npp.TrimTrailingWhitespace) else f"L{o._max_empty_lines}" if isinstance(o, npp.LimitEmptyLines) else f"O{o.k}")
+        return ",".join(out) if out else "-"
+
+    toks = ["T", "L0", "L5", "O1", "O2"]
+    givens = [None, []] + [[a] for a in toks] + [[a, b] for a in toks for b in toks] + [["O1", "T", "O2"], ["L5", "O1", "T"], ["O1", "O2", "L0"]]
+    cases = [(g, lim, tr) for g in givens for lim in (None, 0, 2) for tr in (False, True)]
+    reqs = ["assemble " + ("N" if g is None else (",".join(g) or "-")) + " " + ("N" if lim is None else str(lim)) + " " + ("1" if tr else "0") for g, lim, tr in cases]
+    model = drv.ask(reqs) if drv is not None else [None] * len(reqs)
+    for (g, lim, tr), m in zip(cases, model):
+        given = None if g is None else [make(t) for t in g]
+        got = show(CodeGenerator._handle_post_processors(FakeLanguage(lim, tr), given))
+        ctx.case(("assemble", tuple(g) if g is not None else None, lim, tr), True)
+        ctx.count("assembled_processor_lists")
+        if m is not None:
+            ctx.traces += 1
+            if m != got:
+                ctx.disagree("linebuf-assemble", {"given": g, "limit_empty_lines": lim, "trim_trailing_whitespace": tr}, m, got)
+        items = [] if got in ("N", "-") else got.split(",")
+        want_prefix = [] if g is None else g
+        ok = items[:len(want_prefix)] == want_prefix and (lim is None or any(t[0] == "L" for t in items)) and (not tr or "T" in items)
+        if not ok:
+            ctx.fail({"kind": "configured-processor-missing"},
+                     "the generator's processor list lacks a processor the language configuration asks for, or drops/reorders the caller's",
+                     {"given": g, "limit_empty_lines": lim, "trim_trailing_whitespace": tr, "assembled": got})
+    ctx.sample({"stream": "assemble", "given": cases[-1][0], "limit": cases[-1][1], "trim": cases[-1][2], "assembled": model[-1]})
 
 
 def replay(ctx, path):
